@@ -321,6 +321,9 @@ pub fn generate(rng: &mut Rng, prop: Prop) -> Scenario {
             s.push(Item::new("rec").int("type", t as u64).int("ver", gen::version(rng) as u64).bytes("data", &data).str("x", "none"));
         }
     }
+    // over-cap: a decodable record just above the length cap, every byte of it present (both the
+    // one-step parser and the raw step must treat it alike); it ends the conversation
+    let over_cap = !big && rng.chance(1, 40);
     // bulk: more than 64 KiB in flight behind the record at the head of the buffer
     let bulk = big && rng.chance(1, 4);
     if bulk {
@@ -347,6 +350,24 @@ pub fn generate(rng: &mut Rng, prop: Prop) -> Scenario {
                 r.set("x", crate::item::Val::Str("none".into()));
             }
         }
+    }
+    if over_cap {
+        let n = match rng.below(3) {
+            0 => *rng.pick(&[16641usize, 16642, 18431, 18432, 18433]),
+            _ => rng.urange(16641, 19000),
+        };
+        let (t, data): (u8, Vec<u8>) = match rng.below(4) {
+            0 => (20, vec![1; n]),
+            1 => (21, [1u8, 0].repeat(n / 2)),
+            2 => (24, {
+                let mut v = vec![1u8, 0, 16];
+                v.extend(rng.bytes(n - 3));
+                v
+            }),
+            _ => (23, rng.bytes(n)),
+        };
+        let ver = *rng.pick(&[0x0300u16, 0x0301, 0x0302, 0x0303, 0x0304]);
+        s.push(Item::new("rec").int("type", t as u64).int("ver", ver as u64).bytes("data", &data).str("x", "none"));
     }
     if batch >= 2 && rng.chance(1, 4) {
         // garbage injected behind the records
@@ -1014,6 +1035,12 @@ fn on_delivery(ctx: &mut Ctx, stream: &[u8], layout: &[RecLayout], scn: &Scenari
                 break;
             }
         };
+        // C03 "one-step parsing agrees with two-step parsing (raw record, then ...)": a record the
+        // one-step parser decodes is a record the raw step frames (whatever its length or version)
+        if ctx.on(Prop::C03) && plain.fr.out.is_ok() && raw.out.is_rejection() {
+            let (_, t, ver, len) = frame(buf);
+            ctx.violate(Prop::C03, "delivery/one-vs-two-step", || format!("type {} version {:#06x} length {}: parse_tls_plaintext decoded {} message(s), parse_tls_raw_record answered {}", t, ver, len, plain.msgs.len(), raw.out.show()));
+        }
         ctx.log(0x7a, raw.out.code(), plain.fr.out.code());
         ctx.trace(0x7a + ((frame(buf).1 as u64) << 8), raw.out.code() & 0xfffff ^ (plain.fr.out.code() & 0xfffff) << 20, buf.len());
         if !raw.out.is_ok() {
